@@ -56,8 +56,8 @@ def overlay_map():
 
 PARAMS = {
     #            mc cfg            mc timeout  sim num depth   gen histories len   K
-    "quick":    ("IRCMC_quick.cfg", 240,       60,  22,         90, 45,           3),
-    "thorough": ("IRCMC_small.cfg", 2400,      600, 30,        900, 60,           5),
+    "quick":    (["IRCMC_small.cfg"], 300,     60,  22,         90, 45,           3),
+    "thorough": (["IRCMC_small.cfg", "IRCMC_deep.cfg"], 3000, 600, 30, 900, 60,   5),
 }
 
 
@@ -81,20 +81,29 @@ def run_engine(ctx):
     workers = int(os.environ.get("VERIF_TLC_WORKERS", "8"))
 
     # 1. design model, exhaustive
-    t0 = time.time()
-    r = ctx.tlc("IRCMC", cfg=mccfg, workers=workers, timeout=mcto, name="mc", heap="8g")
-    res["tlc"]["mc"] = {"cfg": mccfg, "generated": r.generated, "distinct": r.distinct, "depth": r.depth,
-                        "wall_s": round(time.time() - t0, 1), "ok": r.ok, "violated": r.invariant_violated}
     mc_counterexample = None
-    if r.invariant_violated:
-        # a failing predicate in the design model: candidate only; extract the program for replay
-        m = re.findall(r'data \|-> "((?:[^"\\]|\\.)*)"', r.out)
-        bad = re.findall(r"/\\ bad = (\{.*\})", r.out)
-        res["tlc"]["mc"]["bad"] = bad[-1] if bad else "?"
-        res["tlc"]["mc"]["trace_data"] = m[-40:]
-        mc_counterexample = True
-    elif not r.ok:
-        raise vlib.Inconclusive("IRCMC exhaustive run failed: rc=%s timeout=%s\n%s" % (r.rc, r.timed_out, r.out[-3000:]))
+    res["tlc"]["mc"] = {"cfg": [], "generated": 0, "distinct": 0, "depth": 0, "wall_s": 0, "ok": True, "violated": None}
+    for cfgname in mccfg:
+        t0 = time.time()
+        r = ctx.tlc("IRCMC", cfg=cfgname, workers=workers, timeout=mcto, name="mc-" + cfgname, heap="8g")
+        mc = res["tlc"]["mc"]
+        mc["cfg"].append(cfgname)
+        mc["generated"] += r.generated
+        mc["distinct"] += r.distinct
+        mc["depth"] = max(mc["depth"], r.depth)
+        mc["wall_s"] += round(time.time() - t0, 1)
+        if r.invariant_violated:
+            # a failing predicate in the design model: candidate only (judged on the real code by the trace)
+            m = re.findall(r'data \|-> "((?:[^"\\]|\\.)*)"', r.out)
+            bad = re.findall(r"/\\ bad = (\{.*\})", r.out)
+            mc["bad"] = bad[-1] if bad else "?"
+            mc["trace_data"] = m[-40:]
+            mc["violated"] = r.invariant_violated
+            mc_counterexample = True
+        elif r.timed_out and cfgname != mccfg[0]:
+            mc["partial"] = "%s stopped by its time limit after %d states (no failure found so far)" % (cfgname, r.generated)
+        elif not r.ok:
+            raise vlib.Inconclusive("IRCMC exhaustive run failed (%s): rc=%s timeout=%s\n%s" % (cfgname, r.rc, r.timed_out, r.out[-3000:]))
 
     # 2. model -> code programs by simulation
     t0 = time.time()
